@@ -4,7 +4,7 @@
     t >= 10^6, float time steps); they are repaired in /repo and the theorems below describe the repaired code. *)
 From Coq Require Import List Arith NArith ZArith Lia Permutation.
 Import ListNotations.
-From PGV Require Import Blocks NdIndex Checkpoint Driver CkNames.
+From PGV Require Import Blocks NdIndex Checkpoint Driver CkNames ConstantsIO.
 
 (** ** checkpoint files *)
 
@@ -230,6 +230,74 @@ Theorem restart_vs_uninterrupted : forall (F D : Type) (step : F -> F) (diag : F
 Proof. exact ck_hist_vs_uninterrupted. Qed.
 Print Assumptions restart_vs_uninterrupted.
 
+(** ** the constants file (ConstantsIO.v: get_constants / eval_expr / Constants.__str__ as written) *)
+
+(** the worklist loop of get_constants always ends within fuel = number of entries + 1 (possibly with one
+    of its two assertions) *)
+Theorem parse_terminates : forall (V : Type) add sub mul div neg mid kmin kmax krp,
+  kmin <> krp -> kmax <> krp -> kmin <> kmax ->
+  forall l, cp_parse V add sub mul div neg mid kmin kmax krp l <> CPFuel V.
+Proof. exact cp_parse_terminates. Qed.
+Print Assumptions parse_terminates.
+
+(** [parse_order_independent]: if the keys are distinct, rp is not given, every identifier of every
+    expression is a key of the file and the dependencies decrease along a rank ([cp_wfb rank l = true], a
+    boolean check), then for every permutation of the entries the parser raises no assertion and the
+    constants - also after set_defaults - are the same, whatever the (deterministic) arithmetic *)
+Theorem parse_order_independent : forall (V : Type) add sub mul div neg mid kmin kmax krp,
+  kmin <> krp -> kmax <> krp -> kmin <> kmax ->
+  forall rank d l l', cp_wfb V krp rank l = true -> Permutation l l' ->
+  exists s s', cp_get_constants V add sub mul div neg mid kmin kmax krp d l = Some s /\
+               cp_get_constants V add sub mul div neg mid kmin kmax krp d l' = Some s' /\
+               forall k, s k = s' k.
+Proof. exact cp_get_constants_order_independent. Qed.
+Print Assumptions parse_order_independent.
+
+(** ... and what they are: the unique solution of the file read as a system of equations *)
+Theorem parse_is_solution : forall (V : Type) add sub mul div neg mid kmin kmax krp,
+  kmin <> krp -> kmax <> krp -> kmin <> kmax ->
+  forall rank l, cp_wf V krp rank l ->
+  exists st, cp_parse V add sub mul div neg mid kmin kmax krp l = CPOk V st /\
+             cp_sol V add sub mul div neg mid kmin kmax krp l st.
+Proof. exact cp_parse_sol. Qed.
+Print Assumptions parse_is_solution.
+
+(** [print_parse_roundtrip]: every public attribute other than rp that Constants.__str__ prints (all as
+    literals, any order of the attributes) comes back equal, and nothing else is set *)
+Theorem print_parse_roundtrip : forall (V : Type) add sub mul div neg mid kmin kmax krp,
+  kmin <> krp -> kmax <> krp -> kmin <> kmax ->
+  forall pub st l, NoDup pub -> cp_print V pub st = Some l ->
+  exists st', cp_parse V add sub mul div neg mid kmin kmax krp l = CPOk V st' /\
+    (forall k, In k pub -> k <> krp -> st' k = st k) /\
+    (forall k, ~ In k pub -> k <> krp -> st' k = None).
+Proof. exact cp_print_parse_roundtrip. Qed.
+Print Assumptions print_parse_roundtrip.
+
+(** rp itself comes back when it is the midpoint the setters compute (not customised) ... *)
+Theorem print_parse_roundtrip_rp_midpoint : forall (V : Type) add sub mul div neg mid kmin kmax krp,
+  kmin <> krp -> kmax <> krp -> kmin <> kmax ->
+  forall pub st l a b, NoDup pub -> In krp pub -> cp_print V pub st = Some l ->
+  st kmin = Some a -> st kmax = Some b -> st krp = Some (mid a b) ->
+  exists st', cp_parse V add sub mul div neg mid kmin kmax krp l = CPOk V st' /\ st' krp = st krp.
+Proof. exact cp_print_parse_roundtrip_rp. Qed.
+Print Assumptions print_parse_roundtrip_rp_midpoint.
+
+(** ... and not when it was customised (known finding constants:rp-not-roundtripped): rp = 3, rMin = 1,
+    rMax = 9 is kept for the key order [rp, rMin, rMax], reset to 5 for [rMin, rMax, rp] and for the file
+    Constants.__str__ prints *)
+Theorem rp_roundtrip_refuted :
+  cp_get_nat [] [(2, CNum nat 3); (0, CNum nat 1); (1, CNum nat 9)]
+    = Some [Some 1; Some 9; Some 3; None; None; None; None; None] /\
+  cp_get_nat [] [(0, CNum nat 1); (1, CNum nat 9); (2, CNum nat 3)]
+    = Some [Some 1; Some 9; Some 5; None; None; None; None; None] /\
+  (let st := fun k => nth k [Some 1; Some 9; Some 3] None in
+   match cp_print nat [1; 0; 2] st with
+   | Some l => cp_get_nat [] l = Some [Some 1; Some 9; Some 5; None; None; None; None; None]
+   | None => False
+   end).
+Proof. exact cp_rp_roundtrip_refuted. Qed.
+Print Assumptions rp_roundtrip_refuted.
+
 (** ** non-vacuity *)
 (** a 3 x 4 array written by a 2 x 1 grid and read by rank (0,2) of a 1 x 3 grid (column starts 0,1,2,4): columns 2..3 *)
 Example roundtrip_example :
@@ -268,6 +336,15 @@ Example tenth_example :
   ck_floor_step 3602879701896397 18014398509481984 = 4%Z /\
   ck_nearest_step 3602879701896397 18014398509481984 = 5%Z.
 Proof. vm_compute. split; reflexivity. Qed.
+
+(** a two-level expression chain satisfying the hypotheses of parse_order_independent (rank = key) *)
+Example constants_wf_example :
+  let l := [(5, CExpr nat (EBin nat OAdd (EId nat 4) (EId nat 3))); (3, CNum nat 7);
+            (4, CExpr nat (EBin nat OMul (ELit nat 2) (EId nat 3)))] in
+  cp_wfb nat 2 (fun k => k) l = true /\
+  cp_get_nat [] l = Some [None; None; None; Some 7; Some 14; Some 21; None; None] /\
+  cp_get_nat [] (rev l) = cp_get_nat [] l.
+Proof. exact cp_wf_example. Qed.
 
 Example names_example : ck_name 40 = [103;114;105;100;95; 48;48;48;48;52;48; 46;104;53]%N.
 Proof. vm_compute. reflexivity. Qed.
